@@ -580,5 +580,16 @@ def return_alts(fnode):
             if isinstance(v, ast.IfExp):
                 return alts(v.body, facts + split_conj(v.test, True)) + alts(v.orelse, facts + split_conj(v.test, False))
             return [(facts, v, r)]
-        out += alts(r.value, base) if r.value is not None else [(base, None, r)]
+        v = r.value
+        # single-exit spelling: `result = A ... result = B ... return result` -> one alternative per assignment of the result variable
+        if isinstance(v, ast.Name):
+            defs = [a for a in walk_local(fnode) if isinstance(a, ast.Assign) and len(a.targets) == 1 and isinstance(a.targets[0], ast.Name) and a.targets[0].id == v.id]
+            if len(defs) >= 2 and all((d.lineno, d.col_offset) < (r.lineno, r.col_offset) for d in defs):
+                for d in defs:
+                    df = list(base)
+                    for t, pol in path_conditions(d, fnode):
+                        df += split_conj(t, pol)
+                    out += [(f_, e_, r) for f_, e_, _r in alts(d.value, df)]
+                continue
+        out += alts(v, base) if v is not None else [(base, None, r)]
     return out
